@@ -9,6 +9,7 @@ import (
 	"encoding/xml"
 	"errors"
 	"fmt"
+	"io"
 	"io/ioutil"
 	"strconv"
 	"strings"
@@ -223,13 +224,17 @@ func (c *Conf) InitFromBytes(content []byte) error {
 	nodeStack = append(nodeStack, c.root)
 	for {
 		currNode := nodeStack[len(nodeStack)-1]
-		token, _ := xmlDecoder.Token()
+		token, err := xmlDecoder.Token()
+		if err != nil && err != io.EOF {
+			return fmt.Errorf("parse config error: %v", err)
+		}
 		if token == nil {
 			break
 		}
 		switch t := token.(type) {
 		case xml.CharData:
 			lineDecoder := bufio.NewScanner(bytes.NewReader(t))
+			lineDecoder.Buffer(nil, len(t)+1) // a line may be as long as the whole text block
 			lineDecoder.Split(bufio.ScanLines)
 			for lineDecoder.Scan() {
 				line := strings.Trim(lineDecoder.Text(), whiteSpaceChars)
